@@ -42,6 +42,7 @@ Same(a, b) ==
        [] a.k \in {"list", "vec"} -> SameAll(a.v, b.v)
        [] a.k = "dotted" -> SameAll(a.v, b.v) /\ Same(a.tail, b.tail)
        [] a.k = "array" -> a.dims = b.dims /\ SameAll(a.v, b.v)
+       [] a.k = "hash" -> Len(a.v) = Len(b.v) /\ \A i \in 1..Len(a.v) : \E j \in 1..Len(b.v) : Same(a.v[i][1], b.v[j][1]) /\ Same(a.v[i][2], b.v[j][2])
        [] OTHER -> FALSE
 
 (***************************************************************************)
